@@ -78,7 +78,9 @@ func (rg *refGroup) collectSymbols(refname string) (bool, []sizes.RefGroupSymbol
 // gitconfig and returns the result. It is not considered an error if
 // there are no usable config entries for the filter.
 func (rg *refGroup) augmentFromConfig(configger Configger) error {
-	config, err := configger.GetConfig(fmt.Sprintf("refgroup.%s", rg.Symbol))
+	// The trailing "." makes the prefix match at a component boundary
+	// even if the symbol itself ends with a ".".
+	config, err := configger.GetConfig(fmt.Sprintf("refgroup.%s.", rg.Symbol))
 	if err != nil {
 		return err
 	}
